@@ -543,6 +543,18 @@ impl<'me> ClaimGuard<'me> {
             state.get_mut().id = SyncOwner::Transferred;
             #[cfg(salsa_verif)]
             verif::line("release_self", self.database_key_index(), "to_transferred");
+
+            // Threads that started waiting on this query while it was re-claimed recorded a
+            // dependency on *this* thread. The query now belongs to its transfer target again, so
+            // that edge is stale: cycle checks no longer see whom those threads really wait for
+            // (which can deadlock two threads that wait for each other through transferred
+            // queries). Wake them; they retry the claim, find the query transferred and resolve
+            // (or detect a cycle through) its current owner.
+            if std::mem::take(&mut state.get_mut().anyone_waiting) {
+                self.zalsa
+                    .runtime()
+                    .unblock_queries_blocked_on(self.database_key_index(), WaitResult::Completed);
+            }
         } else {
             #[cfg(salsa_verif)]
             verif::line("release_self", self.database_key_index(), "release");
